@@ -58,6 +58,8 @@ Definition has_func (E : env) (name : bytes) : bool :=
   e_bound E && ((match assoc name (e_ufuncs E) with Some _ => true | None => false end) || is_default_func name).
 Definition has_macro (E : env) (name : bytes) : bool :=
   e_bound E && (mem_bytes name compile_macros || (e_runtime E && mem_bytes name runtime_macros)).
+(** the compiler is evaluating a constant sub-expression (the clock is withheld) *)
+Definition folding (E : env) : bool := match e_now E with None => true | Some _ => false end.
 Definition env_type (E : env) (name : bytes) : option value :=
   if e_bound E then get_type name else None.
 Definition env_param (E : env) (name : bytes) : option value :=
@@ -394,16 +396,19 @@ Section Step.
         do r <- pop_n (Z.to_nat n) st; let '(vs, st1) := r in
         mret (None, push (VList (rev vs)) st1)
     | IMkDict n =>
-        (fix go (k : nat) (st : stack) (acc : list (bytes * value)) : M (option Z * stack) :=
+        (* every entry is taken off the stack; a key that is not a string makes the literal an error value *)
+        (fix go (k : nat) (st : stack) (acc : list (bytes * value)) (bad : bool) : M (option Z * stack) :=
            match k with
-           | O => mret (None, push (VMap (fold_left (fun m kv => map_insert m (fst kv) (snd kv)) acc [])) st)
+           | O => if bad then mret (None, push (VErr EValue) st)
+                  else mret (None, push (VMap (fold_left (fun m kv => map_insert m (fst kv) (snd kv)) acc [])) st)
            | S k' =>
                do rk <- pop_val st; let '(key, st1) := rk in
+               do rv <- pop_val st1; let '(v, st2) := rv in
                match key with
-               | VString s => do rv <- pop_val st1; let '(v, st2) := rv in go k' st2 ((s, v) :: acc)
-               | _ => mfail EValue
+               | VString s => go k' st2 ((s, v) :: acc) bad
+               | _ => go k' st2 acc true
                end
-           end) (Z.to_nat n) st []
+           end) (Z.to_nat n) st [] false
     | IAccess =>
         do ri <- pop_noresolve st; let '(idx, st1) := ri in
         match idx with
@@ -417,6 +422,7 @@ Section Step.
                 | None =>
                     if has_func E ident then mret (None, SBound false ident obj :: st2)
                     else if has_macro E ident then mret (None, SBound true ident obj :: st2)
+                    else if folding E then mfail (EAttribute ident)
                     else mret (None, push (VErr (EAttribute ident)) st2)
                 end
             | VErr _ => mret (None, push obj st2)
@@ -424,6 +430,7 @@ Section Step.
                 if negb (e_bound E) then mfail ERuntime
                 else if has_func E ident then mret (None, SBound false ident obj :: st2)
                 else if has_macro E ident then mret (None, SBound true ident obj :: st2)
+                else if folding E then mfail (EAttribute ident)
                 else mret (None, push (VErr (EAttribute ident)) st2)
             end
         | SVal _ =>
@@ -446,7 +453,7 @@ Section Step.
                  | Some (VType tn) =>
                      do vals <- resolve_args args;
                      do r <- mlift (construct_type (e_now E) tn vals); mret (None, push r st2)
-                 | _ => mret (None, push (VErr ERuntime) st2)
+                 | _ => if folding E then mfail ERuntime else mret (None, push (VErr ERuntime) st2)
                  end
         | SVal (VType tn) =>
             do vals <- resolve_args args;
